@@ -25,17 +25,17 @@ package pools
 //                                spends the funds)
 //     APC  C calls APP: global counter++ and an INNER payment APP->C
 //     APD  D calls APP with a box reference: counter++ and box_put (KvMods)
-//     G2   atomic group [C->D, D->C]
 //     GAP  atomic group [B pays the APP account, B calls APP (inner payment)]
 //     PE   pay B->E (touches the expired online account E => ExpiredParticipationAccounts list)
-//     T2   pay A->B 650000      (overspends after T1/T3: rejected by the pool; thorough only)
-//     PCL  P closes its account into B (the eligible proposer closes; thorough only)
+//     PCL  P closes its account into B (the eligible proposer closes: FinishBlock must drop the payout)
+//     G2   atomic group [C->D, D->C]                                  (thorough only)
+//     T2   pay A->B 650000 (overspends after T1/T3: rejected by the pool; thorough only)
 //   Tick    an empty block from elsewhere (proposer Q) is validated+added, OnNewBlock: the pool
 //           re-evaluates its pending groups and pre-generates its proposal for the next round
 //   Commit  the pool's own pre-generated proposal (AssembleBlock, FinishBlock with P) is
 //           validated+added on L1, OnNewBlock
 //   Ext     a block from elsewhere holding X = pay A->C 300000 (proposer Q), validated+added, OnNewBlock
-// Bound: quick: <= 4 ops, <= 3 pending groups, <= 2 round ops (7 Remember items);
+// Bound: quick: <= 3 ops (+ the Tick of clause (b)), <= 3 pending groups, <= 2 round ops (7 Remember items);
 //        thorough: <= 6 ops, <= 4 pending groups, <= 3 round ops (9 items), time-capped.
 // Key = block history (txn names + proposer per block), ordered pending groups, payset of the
 // pre-generated proposal, fee multiplier / pending whole blocks.
@@ -86,6 +86,7 @@ package pools
 import (
 	"bytes"
 	"context"
+	"crypto/sha256"
 	"encoding/hex"
 	"fmt"
 	"reflect"
@@ -142,15 +143,15 @@ const (
 	c20T3
 	c20APC
 	c20APD
-	c20G2
 	c20GAP
 	c20PE
-	c20T2
 	c20PCL
+	c20G2
+	c20T2
 	c20nItems
 )
 
-var c20ItemNames = []string{"T1", "T3", "APC", "APD", "G2", "GAP", "PE", "T2", "PCL"}
+var c20ItemNames = []string{"T1", "T3", "APC", "APD", "GAP", "PE", "PCL", "G2", "T2"}
 
 const c20AppSource = `#pragma version 10
 txn ApplicationID
@@ -210,6 +211,8 @@ type c20world struct {
 	reps      map[string]*c20replicas
 	repClock  int64
 	nReplicas atomic.Int64
+	nLRU      atomic.Int64
+	histSeen  sync.Map // history key -> LRU-on validator takes part
 
 	finalDone sync.Map // memo of checked (history, payset)
 	nFinal    atomic.Int64
@@ -366,7 +369,7 @@ func c20RegisterProto() {
 func c20MakeWorld() (*c20world, error) {
 	c20RegisterProto()
 	w := &c20world{reps: map[string]*c20replicas{}, params: config.Consensus[c20Proto], names: map[transactions.Txid]string{}, fees: map[transactions.Txid]uint64{}}
-	w.nItems = ve.Pick(c20T2, c20nItems)
+	w.nItems = ve.Pick(c20G2, c20nItems)
 	w.maxPend = ve.Pick(3, 4)
 	w.maxRnd = ve.Pick(2, 3)
 	copy(w.seed[:], "verif-c20-block-seed............")
@@ -967,16 +970,27 @@ func (s *c20sys) acquireReplicas() *c20replicas {
 			}
 			return l, nil
 		}
-		if e.l2, e.err = build(false); e.err != nil {
-			return
-		}
 		if e.l3, e.err = build(true); e.err != nil {
 			return
 		}
-		if e.state2, e.stateErr = s.stateDump(e.l2); e.stateErr != nil {
+		if e.state3, e.stateErr = s.stateDump(e.l3); e.stateErr != nil {
 			return
 		}
-		e.state3, e.stateErr = s.stateDump(e.l3)
+		// Opening a ledger with the LRU caches enabled costs several CPU seconds (hundreds of MB of
+		// cache buffers are allocated and cleared), so the LRU-on validator L2 takes part for a fixed,
+		// deterministic subset of the histories: those of <= 2 blocks (which carry all the proposals
+		// of clause (b) from the start state, i.e. every pool content) and, in the thorough tier, 1
+		// in 16 of the others.
+		h := sha256.Sum256([]byte(hk))
+		lru := len(s.hist) <= 2 || (ve.Thorough() && h[0]%16 == 0)
+		w.histSeen.Store(hk, lru)
+		if lru {
+			w.nLRU.Add(1)
+			if e.l2, e.err = build(false); e.err != nil {
+				return
+			}
+			e.state2, e.stateErr = s.stateDump(e.l2)
+		}
 	})
 	return e
 }
@@ -1048,7 +1062,7 @@ func (s *c20sys) checkProposal(ub *ledgercore.UnfinishedBlock, what string) erro
 	if err != nil {
 		return ve.Violationf("C20:harness", "harness: state dump L1: %v", err)
 	}
-	if d1 != rep.state2 {
+	if l2 != nil && d1 != rep.state2 {
 		return ve.Violationf("C20:state-differs", "after history %v the state of L2 (AddBlock) differs from the generator's L1: %s", s.histName, c20Diff(rep.state2, d1))
 	}
 	if d1 != rep.state3 {
@@ -1098,13 +1112,8 @@ func (s *c20sys) checkProposal(ub *ledgercore.UnfinishedBlock, what string) erro
 			}
 		}
 		legs := []leg{
-			{"L2.Validate/4workers", validate(l2, w.bl4)},
-			{"L2.Validate/1worker", validate(l2, w.bl1)},
-			{"L3(noLRU).Validate/1worker", validate(l3, w.bl1)},
 			{"L3(noLRU).Validate/4workers", validate(l3, w.bl4)},
-			{"eval.Eval(L2,validate,fresh sig cache)/1worker", func() (ledgercore.StateDelta, error) {
-				return eval.Eval(ctx, l2, blk, true, verify.MakeVerifiedTransactionCache(64), w.bl1, nil)
-			}},
+			{"L3(noLRU).Validate/1worker", validate(l3, w.bl1)},
 			{"eval.Eval(L3,validate,fresh sig cache)/4workers", func() (ledgercore.StateDelta, error) {
 				return eval.Eval(ctx, l3, blk, true, verify.MakeVerifiedTransactionCache(64), w.bl4, nil)
 			}},
@@ -1113,16 +1122,29 @@ func (s *c20sys) checkProposal(ub *ledgercore.UnfinishedBlock, what string) erro
 			}},
 			{"L1.Validate/4workers", validate(s.l1, w.bl4)},
 		}
+		qlegs := []leg{legs[0], legs[3], legs[4]}
+		if l2 != nil {
+			legs = append(legs,
+				leg{"L2(LRU).Validate/4workers", validate(l2, w.bl4)},
+				leg{"L2(LRU).Validate/1worker", validate(l2, w.bl1)},
+				leg{"eval.Eval(L2,validate,fresh sig cache)/1worker", func() (ledgercore.StateDelta, error) {
+					return eval.Eval(ctx, l2, blk, true, verify.MakeVerifiedTransactionCache(64), w.bl1, nil)
+				}})
+			qlegs = append(qlegs, legs[5])
+		}
 		var ref, refName string
 		var refPartial string
 		partialOpts := &c20dumpOpts{partial: true, skipAddr: map[basics.Address]bool{w.sink: true, w.addrs[c20P]: true, w.addrs[c20Q]: true}}
 		reps := 3
 		if pidx == c20Q { // the ineligible-proposer variant only differs in the header: one pass over three legs
 			reps = 1
-			legs = []leg{legs[0], legs[6], legs[7]}
+			legs = qlegs
 		}
 		for rep := 0; rep < reps; rep++ {
-			for _, lg := range legs {
+			for li, lg := range legs {
+				if rep > 0 && (li == 2 || li == 4 || li == 7) {
+					continue // fresh-cache evaluations and the generator's own ledger: first pass only
+				}
 				d, err := lg.run()
 				w.nLegs.Add(1)
 				if err != nil {
@@ -1142,11 +1164,11 @@ func (s *c20sys) checkProposal(ub *ledgercore.UnfinishedBlock, what string) erro
 		if err != nil {
 			return ve.Violationf("C20:proposal-rejected", "%s: payset does not decode: %v", desc, err)
 		}
-		for li, l := range []*ledger.Ledger{l2, l3} {
-			if pidx == c20Q && li == 1 {
-				break
+		for li, l := range []*ledger.Ledger{l3, l2} {
+			if l == nil || (pidx == c20Q && li == 1) {
+				continue
 			}
-			lname := []string{"L2", "L3(noLRU)"}[li]
+			lname := []string{"L3(noLRU)", "L2(LRU)"}[li]
 			ev, err := c20FreshEval(l)
 			if err != nil {
 				return ve.Violationf("C20:harness", "harness: %v", err)
@@ -1285,7 +1307,7 @@ func TestVerif_C20(t *testing.T) {
 	}
 	probe.close()
 	nOps := w.nItems + 3
-	depth := ve.Pick(4, 6)
+	depth := ve.Pick(3, 6)
 	if v := ve.Env("VERIF_C20_DEPTH", ""); v != "" {
 		fmt.Sscan(v, &depth)
 	}
@@ -1338,7 +1360,16 @@ func TestVerif_C20(t *testing.T) {
 	}
 	w.bl1.Shutdown()
 	w.bl4.Shutdown()
-	r.Set("validator_ledger_pairs_built", w.nReplicas.Load())
+	nh, nl := 0, 0
+	w.histSeen.Range(func(_, v any) bool {
+		nh++
+		if v.(bool) {
+			nl++
+		}
+		return true
+	})
+	r.Set("distinct_histories_validated", nh)
+	r.Set("distinct_histories_with_lru_validator", nl)
 	var outs []string
 	w.outcomes.Range(func(k, _ any) bool { outs = append(outs, k.(string)); return true })
 	sort.Strings(outs)
